@@ -6,7 +6,7 @@ import math
 from ..ref import osu as ref_osu
 from ..ref.common import first_mismatch, lt, relclose, show
 from ..values import NAN, eqv
-from .files import GameIO, game_io
+from .files import GameIO, game_io, tie_order
 
 NOTE_ATTRS = ("hitsound_set", "sample_set", "addition_set", "custom_set", "volume", "hitsound_file")
 TP_ATTRS = ("sample_set", "sample_set_index", "volume", "kiai")
@@ -136,6 +136,10 @@ class OsuIO(GameIO):
         out.append(first_mismatch("holds read from the file", _rows(a, "holds"), den["holds"], note_ok, "read", "in the file"))
         out.append(first_mismatch("tempo points read from the file", _rows(a, "bpms"), den["bpms"], tp_ok("bpm"), "read", "in the file"))
         out.append(first_mismatch("scroll velocities read from the file", _rows(a, "svs"), den["svs"], tp_ok("multiplier"), "read", "in the file"))
+        if not [x for x in out if x]:
+            # points on one time take effect in listing order: the last one stays in force
+            out.append(tie_order(_rows(a, "svs"), den["svs"], "multiplier", "scroll velocities", "read", "the file lists", 1e-9))
+            out.append(tie_order(_rows(a, "bpms"), den["bpms"], "bpm", "tempo points", "read", "the file lists", 1e-9))
         out.append(first_mismatch(
             "sample events read from the file", m["samples"]["rows"], den["samples"],
             lambda x, y: eqv(x.get("offset", NAN), y["offset"]) and unq(x.get("sample_file")) == y["sample_file"] and eqv(x.get("volume", NAN), y["volume"]),
@@ -172,6 +176,9 @@ class OsuIO(GameIO):
         out.append(first_mismatch("holds", den["holds"], _rows(a, "holds"), hold_ok, "in the written file", "in the chart"))
         out.append(first_mismatch("tempo points", den["bpms"], _rows(a, "bpms"), tp_ok("bpm", ("metronome",)), "in the written file", "in the chart"))
         out.append(first_mismatch("scroll velocities", den["svs"], _rows(a, "svs"), tp_ok("multiplier"), "in the written file", "in the chart"))
+        if not [x for x in out if x]:
+            out.append(tie_order(den["svs"], _rows(a, "svs"), "multiplier", "scroll velocities", "the written file lists", "the chart lists", 1e-9))
+            out.append(tie_order(den["bpms"], _rows(a, "bpms"), "bpm", "tempo points", "the written file lists", "the chart lists", 1e-9))
         out.append(first_mismatch(
             "sample events", den["samples"], m["samples"]["rows"],
             lambda x, y: lt(x["offset"], y["offset"], 1.0) and x["sample_file"] == unq(y["sample_file"]) and eqv(x["volume"], y["volume"]),
